@@ -8,10 +8,11 @@ allocation call sites (G5), lock sequences (G6).  Each fact is emitted as an
 `Option`: `none` when its anchor could not be located ("untied", reported in the
 evidence; the correspondence check still covers it).  Tie theorems in
 Rsp/Tie/*.lean relate every `some` fact to the hand-written model."""
-import json, os, re, subprocess, sys
+import glob, json, os, re, subprocess, sys
 
 CLANG_DEFS = ['-DSYSCONFDIR="/etc"', "-DRADPROT_UDP", "-DRADPROT_TCP", "-DRADPROT_TLS", "-DRADPROT_DTLS",
-              "-DHAVE_LIBNETTLE=1", "-DHAVE_LIBRESOLV=1", '-DPACKAGE_VERSION="x"', "-w"]
+              "-DHAVE_LIBNETTLE=1", "-DHAVE_LIBRESOLV=1", '-DPACKAGE_VERSION="x"', "-w",
+              "-D__NO_CTYPE"]      # keep isalnum() & co. as calls instead of glibc's table-lookup macros
 
 _ast_cache = {}
 
@@ -262,6 +263,8 @@ GUARDS = [
     ("lostLt", "radsecproxy.c", "incrementlostrqs", ("if_mentioning", ["lostrqs"]), {"server.lostrqs": "lost"}, ["lost"]),
     ("chooseBetter", "radsecproxy.c", "choosesrvconf", ("if_mentioning", ["lostrqs", "bestlostrqs"]), {"server.servers.lostrqs": "lost", "bestlostrqs": "best"}, ["lost", "best"]),
     ("asciiEscape", "radsecproxy.c", "radattr2ascii", ("if_mentioning", ["v", "i"]), {"attr.v[i]": "c"}, ["c"]),
+    # C20: the character test of adddynamicrealmserver; isalnum is left to the tie theorem (Rsp.Tie.isalnumI)
+    ("dynRealmBad", "radsecproxy.c", "adddynamicrealmserver", ("if_mentioning", ["s", "isalnum"]), {"*s": "c", "isalnum(*s)": "(Rsp.Tie.isalnumI c)"}, ["c"]),
 ]
 
 
@@ -269,7 +272,7 @@ def run(repo, outdir):
     os.makedirs(outdir, exist_ok=True)
     facts = {}
     L = ["/- GENERATED by tools/extract.py from /repo's current sources on every check run. Do not edit. -/",
-         "namespace Rsp.Generated", ""]
+         "import Rsp.Base.CType", "namespace Rsp.Generated", ""]
 
     consts = const_defines(repo)
     en = enums(repo)
@@ -353,6 +356,36 @@ def run(repo, outdir):
         else:
             L.append(f"def {lname} : Option ({ty}) := none")
             facts[lname] = {"status": "untied", "why": why}
+    L.append("")
+
+    # G5 textual anchors: every pthread_mutex_lock call-site expression (C17), regcomp flags of addrealm (C08)
+    try:
+        exprs = set()
+        for cf in sorted(glob.glob(os.path.join(repo, "*.c"))):
+            txt = open(cf).read()
+            for m in re.finditer(r"pthread_mutex_lock\(", txt):
+                i, depth = m.end(), 1
+                while i < len(txt) and depth:
+                    depth += {"(": 1, ")": -1}.get(txt[i], 0)
+                    i += 1
+                e = re.sub(r"\s+", "_", txt[m.end():i - 1].strip())
+                exprs.add(e + ("@fn" if e in ("lock", "&lock") else ""))
+        exprs = sorted(exprs)
+        L.append(f"def lockExprs : Option (List String) := some {json.dumps(exprs)}")
+        facts["lockExprs"] = {"status": "ok", "value": exprs}
+    except Exception:
+        L.append("def lockExprs : Option (List String) := none")
+        facts["lockExprs"] = {"status": "untied"}
+    try:
+        txt = open(os.path.join(repo, "radsecproxy.c")).read()
+        body = txt[txt.index("struct realm *addrealm("):]
+        m = re.search(r"regcomp\(&realm->regex,[^;]*?,\s*([A-Z_|\s]+)\)\)", body)
+        flags = sorted(f.strip() for f in m.group(1).split("|"))
+        L.append(f"def realmRegFlags : Option (List String) := some {json.dumps(flags)}")
+        facts["realmRegFlags"] = {"status": "ok", "value": flags}
+    except Exception:
+        L.append("def realmRegFlags : Option (List String) := none")
+        facts["realmRegFlags"] = {"status": "untied"}
     L.append("")
 
     # G4 stage orders
